@@ -9,7 +9,7 @@ from . import tlc as tlcmod
 from .tlaval import to_py
 
 VERIF = tlcmod.VERIF
-EVID_DIR = os.path.join(VERIF, "evidence")
+EVID_DIR = os.environ.get("VERIF_EVIDENCE_DIR") or os.path.join(VERIF, "evidence")
 REPLAY_DIR = os.path.join(EVID_DIR, "replays")
 KNOWN = os.path.join(VERIF, "known_findings.json")
 
